@@ -79,7 +79,7 @@ type rapidStyle struct {
 	comment bool
 }
 
-var normTrivia = []string{"", "", "", " ", "  ", "\t", "\n", " \n ", ";c\n", " ; x[1]{=} C_7/E\n", "\r\n", ";\n", ";a\n;b\n", "; one\n ; two\n\n;three\n;4\n", "\t;x\n\t", " \t "}
+var normTrivia = []string{"", "", "", " ", "  ", "\t", "\n", " \n ", ";c\n", " ; x[1]{=} C_7/E\n", "\r\n", ";\n", ";a\n;b\n", "; one\n ; two\n\n;three\n;4\n", "\t;x\n\t", " \t ", ";a\tb\n", "; was:\tR[4] C[1]\n", "; x\r y\n", ";\x01\x7f\n", "; é日本 ♯\n"}
 var metaTrivia = []string{"", "", " ", "\t", "\n", "  \n"}
 
 func (s *rapidStyle) Trivia(ctx string) string {
